@@ -49,6 +49,20 @@ type c11Plan struct {
 	Genesis string // default | mature
 	Mat     int64  // genesis MaturityTime
 	Blocks  [][]c11Tx
+	// process restarts (Replica.Crash: byte copy of the data directory + a fresh application):
+	CrashAfter  []int // block indices: restart after the Commit of that block
+	CrashMid    []int // block indices: restart between EndBlock and Commit; the block is replayed
+	NoVerdictCrash bool // by default every verdict block is followed by a restart after its Commit
+	VerdictMid  bool  // additionally restart between EndBlock and Commit of every verdict block
+}
+
+func c11In(l []int, x int) bool {
+	for _, y := range l {
+		if y == x {
+			return true
+		}
+	}
+	return false
 }
 
 // ---- recorded trace ----
@@ -60,8 +74,11 @@ type c11OpRec struct {
 }
 
 type c11CaseRec struct {
-	Plan  c11Plan
-	Steps []c11OpRec
+	Plan                 c11Plan
+	Steps                []c11OpRec
+	Restarts             int
+	RestartsMid          int
+	RestartsAfterVerdict int
 }
 
 type c11Addrs struct {
@@ -272,16 +289,15 @@ func c11Run(plan c11Plan) c11CaseRec {
 	}
 	nonce := 0
 	memo := func() string { nonce++; return fmt.Sprintf("c11-%d", nonce) }
-	for _, blk := range plan.Blocks {
+	for bi := 0; bi < len(plan.Blocks); bi++ {
+		blk := plan.Blocks[bi]
+		lastH := rep.H
+		attempt := 0
+	retry:
+		attempt++
+		mark := len(rec.Steps)
 		h := rep.H + 1
-		// BeginBlock: which postponed penalties will HandleUnstake refuse (purge-height rule)
-		blocked := []string{}
-		for _, c := range cast {
-			ph, _ := vs.GetLastPurgeHeight(c.Val.Addr)
-			if ph > 0 && ph+2 > h {
-				blocked = append(blocked, fmt.Sprintf("%d%%positive", ad.of(c.Val.Addr.String())))
-			}
-		}
+		blocked := []string{} // (the purge-height rule is no longer consulted by the postponed update: fix 0ce270f)
 		rep.BeginBlock(&BlockIn{Absent: map[int]bool{}})
 		es.WithState(rep.A.VerifDeliver())
 		gov.WithState(rep.A.VerifDeliver())
@@ -376,9 +392,27 @@ func c11Run(plan c11Plan) c11CaseRec {
 				verdicts = append(verdicts, fmt.Sprintf("(%d%%positive, 30, 100)", ad.of(c.Val.Addr.String())))
 			}
 		}
+		if attempt == 1 && bi > 0 && (c11In(plan.CrashMid, bi) || (plan.VerdictMid && len(verdicts) > 0)) {
+			// the process dies between EndBlock and Commit: nothing of this block is committed; the
+			// restarted application is handed the same block again
+			rep.Crash()
+			rec.Restarts++
+			rec.RestartsMid++
+			rep.H = lastH
+			rec.Steps = rec.Steps[:mark]
+			goto retry
+		}
 		rep.Commit()
 		obs := c11Observe(rep.Dump(), ad)
 		add("end", fmt.Sprintf("(OEnd %d [%s], EBlock (%s))", h, strings.Join(verdicts, "; "), obs.coq()), fmt.Sprintf("end block %d verdicts=%d", h, len(verdicts)), true)
+		if c11In(plan.CrashAfter, bi) || (!plan.NoVerdictCrash && len(verdicts) > 0) {
+			// the process dies after the Commit: the next block runs in a fresh process on the stored state
+			rep.Crash()
+			rec.Restarts++
+			if len(verdicts) > 0 {
+				rec.RestartsAfterVerdict++
+			}
+		}
 	}
 	return rec
 }
@@ -410,6 +444,15 @@ func c11RandomPlan(r *rand.Rand, i int) c11Plan {
 			return []string{"0", "1", "500", "1000", "1500", "5000", "2999000", "3000000", "2998000"}[r.Intn(9)]
 		}
 		return []string{"1", "500", "1000", "1500", "5000", "2999000"}[r.Intn(6)]
+	}
+	p.VerdictMid = r.Intn(2) == 0
+	for b := 1; b < nb; b++ {
+		if r.Intn(8) == 0 {
+			p.CrashAfter = append(p.CrashAfter, b)
+		}
+		if r.Intn(12) == 0 {
+			p.CrashMid = append(p.CrashMid, b)
+		}
 	}
 	for b := 0; b < nb; b++ {
 		blk := []c11Tx{}
@@ -473,7 +516,7 @@ func c11Scripts() []c11Plan {
 	ps := []c11Plan{}
 	tx := func(kind string, v int, a string) c11Tx { return c11Tx{Kind: kind, V: v, D: -1, Amount: a} }
 	// ordinary life cycle: stake, unstake, wait, withdraw; early and double withdraw refused
-	life := c11Plan{Name: "lifecycle", Genesis: "default", Mat: 3, Blocks: c11Empty(12)}
+	life := c11Plan{Name: "lifecycle", Genesis: "default", Mat: 3, Blocks: c11Empty(12), CrashAfter: []int{2, 4}, CrashMid: []int{5}}
 	life.Blocks[1] = []c11Tx{tx("stake", 4, "5000"), tx("stake", 1, "700")}
 	life.Blocks[2] = []c11Tx{tx("unstake", 4, "2000"), tx("withdraw", 4, "1")}
 	life.Blocks[4] = []c11Tx{tx("withdraw", 4, "2000")}
@@ -505,7 +548,7 @@ func c11Scripts() []c11Plan {
 	del.Blocks[8] = []c11Tx{tx("unstake", 2, "5010")}
 	ps = append(ps, del)
 	// verdict: freeze + penalty; WITHDRAW naming the frozen validator refused, naming another accepted
-	fz := c11Plan{Name: "frozen_sidestep", Genesis: "default", Mat: 2, Blocks: c11Empty(14)}
+	fz := c11Plan{Name: "frozen_sidestep", Genesis: "default", Mat: 2, Blocks: c11Empty(14), VerdictMid: true}
 	fz.Blocks[1] = []c11Tx{tx("unstake", 2, "1000")}
 	fz.Blocks[4] = []c11Tx{{Kind: "allege", V: 0, Req: "fz", Mal: 2}}
 	fz.Blocks[5] = []c11Tx{{Kind: "vote", V: 0, Req: "fz", Choice: 1}, {Kind: "vote", V: 1, Req: "fz", Choice: 1}, {Kind: "vote", V: 3, Req: "fz", Choice: 1}}
@@ -520,7 +563,7 @@ func c11Scripts() []c11Plan {
 		{Kind: "allege", V: 0, Req: "pn", Mal: 2}, {Kind: "vote", V: 0, Req: "pn", Choice: 1}, {Kind: "vote", V: 1, Req: "pn", Choice: 1}, {Kind: "vote", V: 3, Req: "pn", Choice: 1}}
 	ps = append(ps, pn)
 	// the postponed record update of a penalty is refused by the purge-height rule in BeginBlock
-	pb := c11Plan{Name: "postponed_blocked", Genesis: "default", Mat: 2, Blocks: c11Empty(9)}
+	pb := c11Plan{Name: "postponed_blocked", Genesis: "default", Mat: 2, Blocks: c11Empty(9), VerdictMid: true}
 	pb.Blocks[1] = []c11Tx{tx("unstake", 2, "2997500")}
 	pb.Blocks[2] = []c11Tx{{Kind: "allege", V: 0, Req: "pb", Mal: 2}, {Kind: "vote", V: 0, Req: "pb", Choice: 1}, {Kind: "vote", V: 1, Req: "pb", Choice: 1}, {Kind: "vote", V: 3, Req: "pb", Choice: 1}}
 	ps = append(ps, pb)
@@ -557,6 +600,9 @@ type c11Report struct {
 	Verdicts  int            `json:"verdicts"`
 	Samples   []string       `json:"samples"`
 	Crashed   []string       `json:"crashed_histories"`
+	Restarts  int            `json:"restarts"`
+	RestartsMid int          `json:"restarts_between_endblock_and_commit"`
+	RestartsAfterVerdict int `json:"restarts_after_verdict_block"`
 	Names     []string       `json:"names"`
 }
 
@@ -655,6 +701,9 @@ func c11Main(args []string) int {
 		}
 		c := *results[i]
 		cases = append(cases, c)
+		rep.Restarts += c.Restarts
+		rep.RestartsMid += c.RestartsMid
+		rep.RestartsAfterVerdict += c.RestartsAfterVerdict
 		for _, blk := range p.Blocks {
 			for _, t := range blk {
 				if t.Kind == "stake" || t.Kind == "unstake" || t.Kind == "withdraw" {
